@@ -284,6 +284,8 @@ TEMPLATES = {
  "excess-initialisers": ("", "let a: [2]i32 = [1, 2, 3];"),
  "unhandled-result": ("", "let r: i32 = mayfail(1);"),
  "error-return-in-non-result": ("", 'return "boom"!;'),
+ "optional-or-narrowing": ("let o: i32? = 5;\nlet fl: bool = true;\n", "if o != none || fl { let n: i32 = o; }"),
+ "optional-or-narrowing-rhs": ("let o: i32? = 5;\nlet fl: bool = true;\n", "if fl || o != none { let n: i32 = o; }"),
  "float-to-int": ("let fl: f64 = 1.5;\n", "let n: i32 = fl;"),
  "mixed-int-float": ("let fl: f64 = 1.5;\nlet iv: i32 = 2;\n", "let z := fl + iv;"),
 }
